@@ -149,7 +149,10 @@ def generate(seed, tier="quick"):
             # the two engines' call sequences around a level transition: the adaptive loop deep-copies the previous level's
             # object, refines it and pre-computes again before every pass; the fixed-level run refines ONE object level
             # after level and simulates right after next_level (which pre-computed on its own)
-            "sequence": r.choice(["adaptive", "adaptive", "fixed_level"])}
+            "sequence": r.choice(["adaptive", "adaptive", "fixed_level"]),
+            # history of the PRODUCT object: it was used once with another maturity (a term-structure loop moves the
+            # public attribute and prices again)
+            "earlier_maturity": (T * r.choice([0.5, 2.0]) if (kind != "coupling" and r.random() < 0.12) else None)}
 
 
 def shrink_candidates(sc):
@@ -198,6 +201,28 @@ def shrink_candidates(sc):
 def _close(a, b, scale=1.0):
     a, b = np.asarray(a, dtype=float), np.asarray(b, dtype=float)
     return a.shape == b.shape and np.allclose(a, b, rtol=1e-11, atol=1e-12 * (1.0 + scale))
+
+
+def _transport(add, path, cls):
+    """the path that reaches the engine is the path that was simulated: a pool worker ships it through the pool's pickler,
+    the engines copy path objects - times, diffusion and jump components must come out as they went in"""
+    from simkit import simpool
+
+    ref = (np.array(path.times(), dtype=float), np.array(path.diffusion_path, dtype=float), np.array(path.jump_path, dtype=float))
+    for how, make in (("pool-pickler", lambda: simpool._loads(simpool._dumps(path))), ("deepcopy", lambda: copy.deepcopy(path)),
+                      ("copy", lambda: copy.copy(path))):
+        try:
+            q = make()
+            got = (np.array(q.times(), dtype=float), np.array(q.diffusion_path, dtype=float), np.array(q.jump_path, dtype=float))
+        except Exception as e:
+            add(f"C15.transport|a simulated path cannot be shipped / copied|{how}|{type(e).__name__}|{cls}", {"error": str(e)[:120]})
+            continue
+        names = ("times", "diffusion component", "jump component")
+        bad = [n for n, a, b in zip(names, ref, got) if a.shape != b.shape or not np.array_equal(a, b)]
+        if bad:
+            swapped = (ref[1].shape == got[2].shape and np.array_equal(ref[1], got[2]) and np.array_equal(ref[2], got[1]))
+            add(f"C15.transport|a path shipped through the {how} is not the path that was simulated|{'diffusion-and-jump-components-exchanged' if swapped else 'other'}|{cls}",
+                {"differs": bad})
 
 
 def execute(wd, sc):
@@ -274,6 +299,12 @@ def execute(wd, sc):
 
             m.jump_increment = ji
         phase["name"] = "setup"
+        if sc.get("earlier_maturity"):
+            product.maturity = sc["earlier_maturity"]
+            process.initialisation(product, max_step_epsilon=eps)
+            process.pre_computation(1, product)
+            product.maturity = T
+            wd.probes["c15.product_used_with_another_maturity_before"] += 1
         process.initialisation(product, max_step_epsilon=eps)
         phase.update(name="precompute", poisson_idx=0, precompute_paths=npaths)
         process.pre_computation(npaths, product)
@@ -341,6 +372,7 @@ def execute(wd, sc):
             continue
         wd.probes["c15.path_checked"] += 1
         draws = wd.draws[d0:]
+        _transport(add, path, cls)
         times = np.array(path.times(), dtype=float)
         diff = np.array(path.diffusion_path, dtype=float)
         jumps = np.array(path.jump_path, dtype=float)
